@@ -49,10 +49,3 @@ Proof. exact stiff_limit. Qed.
 Print Assumptions C12_stiff_limit.
 
 
-(* translator tie: the data-flow graph (which output feeds which input) of canonical models of the public groups, regenerated
-   from the live models on every run, is the reviewed one; a changed or dropped promotion / connection breaks this obligation *)
-From Coq Require Import List String.
-From OAS Require Import Wiring WiringReviewed WiringProofs.
-Theorem C12_group_wiring_is_the_reviewed_one : gen_wiring = reviewed_wiring.
-Proof. exact wiring_reviewed. Qed.
-Print Assumptions C12_group_wiring_is_the_reviewed_one.
